@@ -77,7 +77,7 @@ def _observe(fn):
         return ["exc:" + ("Timeout" if isinstance(e, _Alarm) else type(e).__name__)]
 
 
-def _observe_render(get_template, **kw):
+def _observe_render(get_template, how=0, **kw):
     """Like _observe for `get_template().render(**kw)`, but keeps the tokens written before an exception (a render
     that reaches several writers)."""
     from mako import exceptions
@@ -85,7 +85,11 @@ def _observe_render(get_template, **kw):
     from mako.util import FastEncodingBuffer
     buf = FastEncodingBuffer()
     try:
-        _timed(lambda: get_template().render_context(Context(buf, **kw)))
+        if how == 0:
+            _timed(lambda: get_template().render_context(Context(buf, **kw)))
+        else:
+            r = _timed(lambda: get_template().render(**kw) if how == 1 else get_template().render_unicode(**kw))
+            buf.write(r.decode() if isinstance(r, bytes) else r)
         return TOK.findall(buf.getvalue())
     except BaseException as e:  # noqa
         if isinstance(e, (KeyboardInterrupt, SystemExit)):
@@ -165,11 +169,20 @@ def uri_files(layouts, layout, reqs, reach="none"):
             q = json.dumps(u1)
             wtext = ('<%%namespace name="h" file=%s/>' % q) if rq["k1"] == "nsfile" else ("<%% h = local.get_namespace(%s) %%>" % q)
             wtext += "${h.show()}" if k2.startswith("in.") else api_call("h", api, spelled(rq["u2"], "t.html"))
+        if rq.get("base") or rq.get("entry", "render") == "def":
+            # the lookup is written inside def d of the writer, which may inherit a base in another directory
+            wname = "d_%d_%s_%s" % (rq.get("base", 0), rq["entry"], wname)
+            inh = ""
+            if rq.get("base"):
+                bpath = "/".join(rq["bdir"])
+                files[(1, (bpath + "/" if bpath else "") + "bb.html")] = "${next.body()}"
+                inh = '<%%inherit file="/%sbb.html"/>' % (bpath + "/" if bpath else "")
+            wtext = '%s<%%def name="d()">%s</%%def>${d()}' % (inh, wtext)
         if reach == "inherit" and not entries:      # the first writer is inherited by the entry template
             wname = "nb_" + wname
             wtext += "${next.body()}"
         files[(1, (wpath + "/" if wpath else "") + wname)] = wtext
-        entries.append("/" + (wpath + "/" if wpath else "") + wname)
+        entries.append("/" + (wpath + "/" if wpath else "") + wname + ("#def" if rq.get("entry", "render") == "def" else ""))
     if reach != "none":
         # ONE render: an entry template at the root reaches every writer (absolute URIs)
         if reach == "include":
@@ -214,8 +227,14 @@ def run_uri(layouts, c, backed, size=-1):
         for (r, rel), text in files.items():
             lk.put_string("/" + rel, text)
     out = []
-    for e in entries:
-        out += _observe_render(lambda: lk.get_template(e))
+    for n, e in enumerate(entries):
+        # whole template, or Template.get_def("d"); through render_context / render / render_unicode
+        # (a one-render session keeps to render_context: the tokens written before an exception are part of the observation)
+        rot = 0 if c.get("reach", "none") != "none" else 1
+        if e.endswith("#def"):
+            out += _observe_render(lambda: lk.get_template(e[:-4]).get_def("d"), how=rot * ((c.get("nc", 0) + n) % 3))
+        else:
+            out += _observe_render(lambda: lk.get_template(e), how=rot * ((c.get("nc", 0) + n) % 3))
     return out
 
 
@@ -564,8 +583,11 @@ def signature(c, exp, obs):
         if rq["u1"]["empty"] or (rq["s2"] and rq["u2"]["empty"]):
             return "uri:empty-uri:expected(%s):observed(%s)" % (_cls(e), _cls(o)), d
         what = "wrong-target" if (e or "").startswith("at|") and (o or "").startswith("at|") else "expected(%s):observed(%s)" % (_cls(e), _cls(o))
-        return "uri:%s:%s%s%s:%s" % (rq["k1"], _features(rq["u1"]), (":hop2(%s)-" % rq.get("k2", "include") + _features(rq["u2"])) if rq["s2"] else "",
-                                     ((":one-render(%s)" % c["reach"] if c.get("reach", "none") != "none" else "") + ":request%d" % (d + 1)) if len(c["reqs"]) > 1 else "", what), d
+        hop2 = (":hop2(%s)-" % rq.get("k2", "include") + _features(rq["u2"])) if rq["s2"] else ""
+        indef = (":in-def(%s%s)" % (rq["entry"], ",inherits" if rq.get("base") else "")) \
+            if rq.get("base") or rq.get("entry", "render") == "def" else ""
+        sess = ((":one-render(%s)" % c["reach"] if c.get("reach", "none") != "none" else "") + ":request%d" % (d + 1)) if len(c["reqs"]) > 1 else ""
+        return "uri:%s:%s%s%s%s:%s" % (rq["k1"], _features(rq["u1"]), hop2, indef, sess, what), d
     prev = exp[d - 1] if d else "START"
     if c["fam"] == "nsprec" and c["imp"] == "star" and e and o and e[0] == "I" and o[0] == "F" and prev == "call|" + e[2:] \
             and e[2:] in c["I"] and e[2:] in c["F"]:
@@ -591,6 +613,10 @@ def random_session(rng, nsp, plain_sp, thorough):
         for q in reqs:
             if q["k1"] == "inherit":
                 q["k1"] = "include"
+    for q in reqs:           # entry points: the lookup inside a def of a writer that inherits, requested whole or via get_def
+        q["base"], q["entry"] = 0, "render"
+        if reach == "none" and not q["s2"] and q["k1"] in ("include", "getns", "gettmpl", "incfile") and rng.random() < 0.5:
+            q["base"], q["entry"] = rng.choice([0, 1, 2, 3, 4, 5]), rng.choice(["render", "def"])
     return {"fam": "uri", "reach": reach, "layout": layout, "reqs": reqs}
 
 
@@ -604,7 +630,7 @@ def check(run):
     nproc = min(core.NCPU, 12)
     cfg = ("CONSTANTS Tier = \"%s\"\nSPECIFICATION Spec\n" % run.tier) + "".join("INVARIANT %s\n" % i for i in INVS) \
         + "INVARIANT Emit\nCHECK_DEADLOCK FALSE\n"
-    res = run.tlc("MC_Namespaces", cfg, name="mc-namespaces", coverage=True, workers=workers, timeout=1200)
+    res = run.tlc("MC_Namespaces", cfg, name="mc-namespaces", heap="4g", coverage=True, workers=workers, timeout=1200)
     if res.violated:
         run.spec_violation(res)
         return {"rule": "TLC found the design model violating %s" % res.violated, "exhaustive": True}
@@ -714,6 +740,7 @@ def check(run):
         s = random_session(run.rng, nsp, None, thorough)
         conc = {"fam": "uri", "reach": s["reach"], "layout": s["layout"],
                 "reqs": [{"w": dirs[q["w"] - 1], "k1": q["k1"], "k2": q["k2"], "s1": q["s1"], "s2": q["s2"], "u1": spell[q["s1"]],
+                          "base": q["base"], "bdir": dirs[q["base"] - 1] if q["base"] else [], "entry": q["entry"],
                           "u2": spell[q["s2"]] if q["s2"] else {"abs": False, "segs": [], "empty": True}} for q in s["reqs"]]}
         size = run.rng.choice([-1, -1, 1, 2])       # a bounded collection also bounds the _uri_cache memo
         try:
